@@ -166,12 +166,15 @@ fn mutate(ctx: &mut Ctx, m: &[u8], other: &[u8]) -> (Vec<u8>, String) {
             if spans.is_empty() {
                 return (m.to_vec(), "unmodified (control)".into());
             }
-            let (a, e) = spans[ctx.pick(spans.len())];
+            // one time in four the value is a number (counts, ids and lengths are read from such leaves);
+            // it then goes, three times out of four, where a number stood before - if there is such a place
+            let number = ctx.pick(4) == 0;
+            let numeric: Vec<(usize, usize)> = spans.iter().copied().filter(|(a, e)| !text[*a..*e].trim().is_empty() && text[*a..*e].trim().bytes().all(|c| c.is_ascii_digit())).collect();
+            let (a, e) = if number && !numeric.is_empty() && ctx.pick(4) != 0 { numeric[ctx.pick(numeric.len())] } else { spans[ctx.pick(spans.len())] };
             let ascii = ctx.pick(140);
             let wide: &str = *ctx.tape.choose(&["", "é", "日", "😀", " ", "&amp;", "&#x1F600;", "\t"]);
             let repeat = ctx.pick(60);
-            // one time in four a number instead (counts, ids and lengths are read from such leaves)
-            let value = if ctx.pick(4) == 0 {
+            let value = if number {
                 (*ctx.tape.choose(&["0", "1", "2", "7", "255", "65536", "4294967295", "4294967296", "18446744073709551615", "18446744073709551616", "-1", "-0", "+3", "99999999999999999999999999", "1e3", "0x10"])).to_string()
             } else {
                 format!("{}{}", "v".repeat(ascii), wide.repeat(repeat))
